@@ -24,6 +24,8 @@ func vpConfProposal(maxK int, shapes []int) {
 	o := vpDefaultOpts(StateLeader)
 	o.shapes = shapes
 	o.plainData = true
+	o.leaderPr = false // the gate does not depend on the peers' replication state
+	o.ls, o.lu = 0, 1
 	nd := vpBuild(o)
 	r := nd.r
 	vpAssume(vpAnd(r.leadTransferee == None, uint64(r.maxUncommittedSize) == noLimit, r.pendingConfIndex <= r.raftLog.lastIndex()))
@@ -112,15 +114,22 @@ func vpH_conf_Propose_3()       { vpConfProposal(3, []int{0, 1}) }
 // C10-G4: ApplyConfChange installs exactly the Changer's result
 // ---------------------------------------------------------------------------
 
-func vpApplyConf(role StateType, shapes []int) {
+func vpApplyConf(role StateType, shapes []int, maxN int) {
 	o := vpDefaultOpts(role)
 	o.shapes = shapes
 	o.plainData = true
+	o.ls, o.lu = 0, 1
+	if maxN <= 1 {
+		// quick bound: only the leader's own Match is symbolic (the peers are as
+		// reset() leaves them), so a commit advance needs the new configuration
+		// to make the leader alone a quorum
+		o.leaderPr = false
+	}
 	nd := vpBuild(o)
 	r := nd.r
 	tr := vpChoose(3)
 	cc := &pb.ConfChangeV2{Transition: new(pb.ConfChangeTransition(tr))}
-	n := vpChoose(3)
+	n := vpChoose(maxN + 1)
 	for j := 0; j < n; j++ {
 		t := []pb.ConfChangeType{pb.ConfChangeAddNode, pb.ConfChangeRemoveNode, pb.ConfChangeAddLearnerNode}[vpChoose(3)]
 		id := uint64(1 + vpChoose(4))
@@ -190,8 +199,10 @@ func vpApplyConf(role StateType, shapes []int) {
 	ki.assertEach("Inv/post")
 }
 
-func vpH_conf_Apply_L() { vpApplyConf(StateLeader, []int{0, 1, 7}) }
-func vpH_conf_Apply_F() { vpApplyConf(StateFollower, []int{0, 1, 7, 4}) }
+func vpH_conf_Apply_L()  { vpApplyConf(StateLeader, []int{0, 1, 7}, 1) }
+func vpH_conf_Apply_F()  { vpApplyConf(StateFollower, []int{0, 1, 7, 4}, 1) }
+func vpH_conf_Apply_L2() { vpApplyConf(StateLeader, []int{0, 1}, 2) }
+func vpH_conf_Apply_F2() { vpApplyConf(StateFollower, []int{0, 1, 7, 4}, 2) }
 
 // ---------------------------------------------------------------------------
 // Storage acknowledgements: C08-A5, C10-G6, C03-M4, C09-S2 (V-local)
